@@ -685,6 +685,14 @@ def _c02_program(r):
     """rebuild the procedure of a C02/C08 record"""
     import corpus.seeds as S
 
+    gm = re.fullmatch(r"g(\d+)_(\d+)", str(r.get("seed")))
+    if gm:
+        from .gen import generate
+        from .mutate_src import build_module
+
+        progs = generate(int(gm.group(1)), int(gm.group(2)) + 1)
+        mod = build_module("kf_regen", [progs[-1]])
+        return mod.PROCS.get(r["seed"])
     p = S.by_name(r["seed"])
     how = r.get("how")
     if how:
@@ -701,9 +709,6 @@ def c_mod_on_negative_numerator(r):
     """`%` is emitted as C's remainder.  Recognised semantically: re-running the reference
     interpreter with C's truncating remainder for `%` reproduces exactly what the C did
     (the same wrong value at the same address, or the same out-of-bounds access)."""
-    src = r.get("src") or ""
-    if "%" not in src:
-        return False
     d = r.get("detail") or {}
     inputs = d.get("inputs")
     if not inputs:
